@@ -149,7 +149,13 @@ class Prop(PropBase):
                       freq_align=case["al"], **kw)
         try:
             y = pb.contrib.stft(z, nperseg=P)
+            y_before = np.array(np.asarray(y.data), copy=True)
             w = pb.contrib.istft(y, nperseg=P)
+            w_again = pb.contrib.istft(y, nperseg=P)           # the STFT object is reused: same answer, object unchanged
+            y_again = pb.contrib.stft(z, nperseg=P)
+            repeat_ok = bool(np.array_equal(np.asarray(w_again.data), np.asarray(w.data))
+                             and np.array_equal(np.asarray(y.data), y_before)
+                             and np.array_equal(np.asarray(y_again.data), y_before))
         except Exception as e:
             return {"err": err_name(e)}
 
@@ -159,7 +165,7 @@ class Prop(PropBase):
                     "n": int(s.nchan), "al": s.freq_align, "bw": X.rat(X.q_value(s.chan_bw, u.Hz)),
                     "labels": [X.rat(X.q_value(f, u.Hz)) for f in s.channel_freqs],
                     "shape": list(s.shape)}
-        out = {"stft": desc(y), "istft": desc(w), "orig_labels": [X.rat(X.q_value(f, u.Hz)) for f in z.channel_freqs]}
+        out = {"repeat_ok": repeat_ok, "stft": desc(y), "istft": desc(w), "orig_labels": [X.rat(X.q_value(f, u.Hz)) for f in z.channel_freqs]}
         Lt = (L // P) * P
         scale = float(np.max(np.abs(x)))
         out["recon_err"] = float(np.max(np.abs(np.asarray(w.data) - x[:Lt])) / scale) if w.shape == x[:Lt].shape else -1.0
@@ -269,6 +275,8 @@ class Prop(PropBase):
         t = code["tone"]
         if t["purity"] < 0.999 or not X.close(F(t["peak_label"]), F(t["true_freq"]), atol=tol):
             return f"tone at {float(F(t['true_freq']))} Hz peaks in the sub-channel labelled {float(F(t['peak_label']))} Hz"
+        if code.get("repeat_ok") is False:
+            return "istft (or stft) called a second time on the same object gives a different answer, or changed its argument"
         w = code["istft"]
         if w["cls"] != case["cls"] or w["len"] != (L // P) * P or w["n"] != n or not X.close(F(w["rate"]), rate, rtol=F(1, 10**14)):
             return f"istft(stft(z)) class/len/nchan/rate = {w['cls']},{w['len']},{w['n']},{w['rate']}"
